@@ -161,10 +161,29 @@ impl Clone for P {
     }
 }
 
+/// search mode (MQX_DROPYIELD=1): a payload destructor is a scheduling point of its own, so that other
+/// agents can run while a value is being destroyed in place.  Not used for the correspondence (the model
+/// has no such step); used to look for a concrete failing input after a divergence.
+fn dropyield() -> bool {
+    static mut CACHE: u8 = 0;
+    unsafe {
+        if CACHE == 0 {
+            CACHE = if std::env::var("MQX_DROPYIELD").is_ok() { 2 } else { 1 };
+        }
+        CACHE == 2
+    }
+}
+
 impl Drop for P {
     fn drop(&mut self) {
-        let (id, ser, chk) = self.fields();
         let active = rt().active();
+        if active && dropyield() && !std::thread::panicking() && !multiqueue2::verif_hooks::is_quiet() {
+            let (_, ser0, _) = self.fields();
+            rt().sched_point(Pending::Op);
+            rt().with(|st| st.emit(format!("op:dropmid:none:0:0:{:x}:1", ser0)));
+        }
+        // the destructor looks at the value only now
+        let (id, ser, chk) = self.fields();
         rt().with(|st| {
             let valid = chk == id ^ ser ^ MAGIC && (ser as usize) < st.ledger.len();
             if valid {
